@@ -105,6 +105,7 @@ let handle kind c =
     let ratekey = next_z c in
     let status = next_z c in
     let lp = next_bool c in
+    let damaged = ref [] in
     let entries = next_list c (fun c ->
         let name = next_bytes c in
         match next c with
@@ -113,6 +114,11 @@ let handle kind c =
           let e1 = next_z c in let e2 = next_z c in
           let cn = next_bool c in
           { lf_name = name; lf_span = Some (ns_of b1 b2, ns_of e1 e2); lf_counts = cn }
+        | "endonly" ->
+          let e1 = next_z c in let e2 = next_z c in
+          let cn = next_bool c in
+          damaged := (name, ns_of e1 e2) :: !damaged;
+          { lf_name = name; lf_span = None; lf_counts = cn }
         | _ ->
           let cn = next_bool c in
           { lf_name = name; lf_span = None; lf_counts = cn }) in
@@ -176,6 +182,17 @@ let handle kind c =
           if not (List.mem (bs ("POST /" ^ show fd)) reqs) || status <> z_of_int 200 then
             prop "gating_ok" (Printf.sprintf "upload/%s recorded without an acknowledged request" (esc n))
         end) uafter;
+    (* a count file whose collection time is unknown must not end up in anything uploadable *)
+    let removed = List.filter (fun n -> not (List.mem n lafter)) before_names in
+    let upl_weeks =
+      List.filter_map (fun r -> let r = show r in
+                        if String.length r >= 6 && String.sub r 0 6 = "POST /" then Some (bs (String.sub r 6 (String.length r - 6))) else None) reqs
+      @ List.filter_map (fun n -> if not (List.mem n before_names) && is_upload_report n then Some (trim_suffix n json_suffix) else None) lafter in
+    if not (spec_unknown_begin_ok (snd (parse_mode fs.fs_mode)) !damaged removed upl_weeks) then
+      prop "unknown_begin_uploaded"
+        (Printf.sprintf "count file(s) without a usable TimeBegin (%s) were consumed and their week made uploadable (%s): mode file %s"
+           (String.concat "," (List.map (fun (n, _) -> esc n) !damaged))
+           (String.concat "," (List.map esc upl_weeks)) (show_file fs.fs_mode));
     if not modesame then prop "modefile_unchanged" "the uploader changed the mode file";
     if baddebug > 0 then prop "snapshot_unchanged" "unexpected new file under debug/";
     if beq mode m_off then begin
@@ -234,6 +251,10 @@ let handle kind c =
     end;
     if beq (mode_of fs0.fs_mode) m_off && (ch1 || cr1 > 0) then
       prop "snapshot_unchanged" "mode off from the start: the first rotate1 created or changed a count file"
+  | "hang" ->
+    let what = next_bytes c in
+    let i = next_int c in
+    prop "hang" (Printf.sprintf "the implementation did not return within the watchdog time: %s case %d" (show what) i)
   | "cproc" ->
     let mtag = next c in
     let mbytes = next_bytes c in
